@@ -235,7 +235,7 @@ class Outcome:
         self.kind, self.detail = kind, detail   # 'ok' | 'skip' | 'known' | 'fail'
 
 
-def check_case(c: Contract, fn, args, ns=None):
+def check_case(c: Contract, fn, args, ns=None, ignore_known=False):
     """Run the real function on args under the contract. Returns Outcome."""
     ns = ns or runtime_namespace()
     pre = {k: snapshot(v) for k, v in args.items()}
@@ -247,7 +247,7 @@ def check_case(c: Contract, fn, args, ns=None):
                 return Outcome('skip', cn)
     except Exception as e:
         return Outcome('skip', 'requires raised %r' % (e,))
-    for kid, text in c.known.items():
+    for kid, text in ({} if ignore_known else c.known).items():
         try:
             if ceval(text, env):
                 return Outcome('known', kid)
@@ -338,11 +338,11 @@ def fuzz(qual, n_cases=300, seed=0, stop_at_first=True):
     return out
 
 
-def replay(qual, desc_args):
+def replay(qual, desc_args, ignore_known=False):
     c = REGISTRY[qual]
     fn, mod = real_function(qual)
     args = {k: rebuild(v) for k, v in desc_args.items()}
-    return check_case(c, fn, args)
+    return check_case(c, fn, args, ignore_known=ignore_known)
 
 
 if __name__ == '__main__':
